@@ -48,6 +48,24 @@ Theorem C01_writer_result_exact : forall H h L w d,
 Proof. exact writer_write_exact. Qed.
 Print Assumptions C01_writer_result_exact.
 
+(* 2a. History level, for every operation list and every writer ever created: let t be the concatenation, in
+       order, of the chunks of those Write calls on this writer that got past write()'s guards (result ROk or
+       InvalidStateError, i.e. not refused with OSError) - [written] below.  Then t is exactly what the writer has
+       hashed, and the state of its future is a function of t: result b => b = t, |t| = accepted length, H t = h;
+       InvalidDataError => |t| > length; InvalidBlobHashError => |t| = length and H t <> h; still pending =>
+       |t| < length.  (A cancelled future - close_handle / blob.close / another writer won - carries no claim.) *)
+Theorem C01_writer_result_exact_history : forall H h kd cb ops i w,
+  nth_error (s_ws (run H h kd cb ops init)) i = Some w ->
+  let t := written i ops (results H h kd cb ops init) in
+  let len := s_len (run H h kd cb ops init) in
+  w_seen w = t
+  /\ (forall b, w_fut w = FOk b -> b = t /\ exists L, len = Some L /\ N.of_nat (length t) = L /\ H t = h)
+  /\ (w_fut w = FErrLen -> exists L, len = Some L /\ L < N.of_nat (length t))
+  /\ (w_fut w = FErrHash -> exists L, len = Some L /\ N.of_nat (length t) = L /\ H t <> h)
+  /\ (w_fut w = FPending -> forall L, len = Some L -> L <> 0 -> N.of_nat (length t) < L).
+Proof. exact writer_history. Qed.
+Print Assumptions C01_writer_result_exact_history.
+
 (* 2b. A write (of anything, by any writer, in any state) never stores, verifies or announces anything by
        itself: it changes that one writer and may schedule that writer's three callbacks, nothing else. *)
 Theorem C01_write_stores_nothing : forall H h i d s,
